@@ -302,6 +302,7 @@ class Interp:
         self.fnitems = {}
         self.adts = adts or {}
         self.depth_cap = 40
+        self.loop_cap = 300      # visits of one block on one path (a u8 counter loop needs 256)
         self.notes = []
         self.discr_types = {}
         self.diverged = []      # states of paths that ended in a panic / diverging call
@@ -519,7 +520,7 @@ class Interp:
         while True:
             visits = dict(visits)
             visits[bbi] = visits.get(bbi, 0) + 1
-            if visits[bbi] > 40:
+            if visits[bbi] > self.loop_cap:
                 st.ev('LOOP-CAP', body['generic_path'], bbi)
                 self.notes.append('loop cap in ' + body['generic_path'])
                 return
